@@ -193,6 +193,10 @@ COMPOSITES = {
     "length-key-positioned-in-structure": {"params": [SID, V("pre", U8), V("st", S([
         V("x", U8, bytepos=0), dict(kind="lengthkey", name="lk", id="LK8", dop=U8, bytepos=1)])),
         V("data", dict(dt="A_UINT32", dct="paramlen", length_key="LK8")), TAIL], "lengths": [8, 16]},
+    # the key sits at BYTE-POSITION 0 of its structure but comes second in document order
+    "length-key-at-zero-after-sibling": {"params": [SID, V("pre", U8), V("st", S([
+        V("x", U8, bytepos=1), dict(kind="lengthkey", name="lk", id="LKB", dop=U8, bytepos=0)])),
+        V("data", dict(dt="A_UINT32", dct="paramlen", length_key="LKB")), TAIL], "lengths": [8, 16]},
     # key and keyed data inside a structure, more data behind the structure
     "length-key-and-data-in-structure": {"params": [SID, V("blob", S([
         dict(kind="lengthkey", name="lk", id="LK9", dop=U8),
@@ -411,7 +415,13 @@ def ref_params(p, origin, cursor, params, vals, at_end, env):
         bitpos = prm.get("bitpos") or 0
         k = prm["kind"]
         nm = prm["name"]
-        if k == "const":
+        if k == "const" and prm["type"]["dt"] == "A_BYTEFIELD":
+            # a byte-field constant (fixed length or MIN-MAX-LENGTH): laid out like a value
+            n = ref_dop(p, pos, bitpos, prm["type"], bytes.fromhex(prm["value"]), at_end and last, env)
+            if "const_bits" in env:
+                for i in range(n):
+                    env["const_bits"][pos + i] = 0xFF
+        elif k == "const":
             t = prm["type"]
             n = p.put_field(pos, bitpos, t["bl"], prm["value"], t.get("hl") in (None, True))
             if "const_bits" in env:  # remember which bits are coded constants
@@ -749,6 +759,14 @@ EXTRA_REQUESTS = {
     # length 0): it has a default, so it is not required and can be omitted
     "default-empty-bytes": {"params": [SID, V("d", dict(dt="A_BYTEFIELD", dct="leading", bl=8),
                                                default=""), V("b", U8), TAIL]},
+    # the last object is a coded constant of a MIN-MAX-LENGTH type shorter than its maximum: at the
+    # end of the PDU it carries no terminator, neither in the encoding nor in the constant prefix
+    "const-minmax-last": {"params": [SID, V("a", U8), dict(
+        kind="const", name="magic", value="1234",
+        type={"dt": "A_BYTEFIELD", "dct": "minmax", "min": 1, "max": 4, "term": "ZERO"})]},
+    "const-minmax-only": {"params": [SID, dict(
+        kind="const", name="magic", value="1234",
+        type={"dt": "A_BYTEFIELD", "dct": "minmax", "min": 1, "max": 4, "term": "HEX-FF"})]},
     "const-string": {"params": [SID, V("a", U8), dict(kind="const", name="magic",
                                                       type={"dt": "A_ASCIISTRING", "bl": 16},
                                                       value="OK"), TAIL]},
@@ -1096,6 +1114,10 @@ def configs_for(prop, tier, seed):
                             "what": what, "name": name, "shape": sh, "prop": prop,
                             "build": {"what": what, "name": name}})
     if prop == "C08":
+        for name in ("const-minmax-last", "const-minmax-only"):
+            out.append({"id": f"composite/request/{name}/x", "harness": "composite",
+                        "what": "request", "name": name, "shape": {}, "prop": prop,
+                        "build": {"what": "request", "name": name}})
         for name, spec in LENGTH_ONLY_RESPONSES.items():
             for sh in shapes(spec):
                 sid = "-".join(f"{k}{v}" for k, v in sh.items()) or "x"
